@@ -21,6 +21,7 @@ package oxsim
 
 import (
 	"context"
+	"runtime"
 	"errors"
 	"fmt"
 	"io"
@@ -61,7 +62,7 @@ type fakeCluster struct {
 	faultPct   int
 	slowPct    int
 	faults     []faultEv // when and where faults were injected
-	seq        int64
+	ord        map[string]int64
 	chunkMax   int
 	midStream  bool
 	stallPct   int
@@ -93,13 +94,25 @@ func (fc *fakeCluster) shardOf(key string) *fakeShard {
 	return nil
 }
 
-// decide draws the next seeded decision (0..99) for a server-side choice.
-func (fc *fakeCluster) decide(what string) int {
+// decide draws a seeded decision (0..99) for a server-side choice.  It is keyed by what is
+// being decided and by a fingerprint of the request being served (plus an ordinal among equal
+// keys), not by a global counter: the order in which concurrent handlers get to run must not
+// change what happens to each of them.
+func (fc *fakeCluster) decide(fp uint64, what string) int {
+	key := fmt.Sprintf("%s/%016x", what, fp)
 	fc.mu.Lock()
-	fc.seq++
-	n := fc.seq
+	if fc.ord == nil {
+		fc.ord = map[string]int64{}
+	}
+	fc.ord[key]++
+	n := fc.ord[key]
 	fc.mu.Unlock()
-	return int(H(fc.r.Seed, "fake", what, n) % 100)
+	return int(H(fc.r.Seed, "fake", key, n) % 100)
+}
+
+func fingerprint(shard int64, m interface{ MarshalVT() ([]byte, error) }) uint64 {
+	b, _ := m.MarshalVT()
+	return H(uint64(shard), b)
 }
 
 func (fc *fakeCluster) noteFault(shard int64) {
@@ -210,20 +223,20 @@ type fakeNode struct {
 
 var retriable = []codes.Code{codes.Unavailable, codes.Code(106) /* node is not leader */, codes.Code(103) /* invalid status */, codes.Code(104) /* already closed */}
 
-func (n *fakeNode) fault(shard int64, what string) error {
-	if n.fc.decide("fault/"+what) >= n.fc.faultPct {
+func (n *fakeNode) fault(fp uint64, shard int64, what string) error {
+	if n.fc.decide(fp, "fault/"+what) >= n.fc.faultPct {
 		return nil
 	}
 	n.fc.noteFault(shard)
-	if n.fc.decide("code") < 75 {
-		return status.Error(retriable[n.fc.decide("which")%len(retriable)], "oxsim: injected "+what+" failure")
+	if n.fc.decide(fp, "code") < 75 {
+		return status.Error(retriable[n.fc.decide(fp, "which")%len(retriable)], "oxsim: injected "+what+" failure")
 	}
 	return status.Error(codes.Internal, "oxsim: injected final "+what+" failure")
 }
 
-func (n *fakeNode) maybeSlow() {
-	if n.fc.decide("slow") < n.fc.slowPct {
-		time.Sleep(time.Duration(n.fc.decide("slow-ms")*3+1) * time.Millisecond)
+func (n *fakeNode) maybeSlow(fp uint64) {
+	if n.fc.decide(fp, "slow") < n.fc.slowPct {
+		time.Sleep(time.Duration(n.fc.decide(fp, "slow-ms")*3+1) * time.Millisecond)
 	}
 }
 
@@ -281,22 +294,24 @@ func (n *fakeNode) WriteStream(st proto.OxiaClient_WriteStreamServer) error {
 		if len(req.Puts)+len(req.Deletes)+len(req.DeleteRanges) > 1 {
 			n.fc.r.Count("server_write_batches_multi_op", 1)
 		}
-		if err := n.fault(id, "write-before-apply"); err != nil {
+		fp := fingerprint(id, req)
+		n.fc.r.Logf("srv write shard=%d fp=%016x ops=%d", id, fp, len(req.Puts)+len(req.Deletes)+len(req.DeleteRanges))
+		if err := n.fault(fp, id, "write-before-apply"); err != nil {
 			return err
 		}
-		n.maybeSlow()
+		n.maybeSlow(fp)
 		n.fc.mu.Lock()
 		res := s.apply(req)
 		n.fc.mu.Unlock()
-		if err := n.fault(id, "write-after-apply"); err != nil {
+		if err := n.fault(fp, id, "write-after-apply"); err != nil {
 			return err
 		}
-		if n.fc.stallPct > 0 && n.fc.decide("stall") < n.fc.stallPct {
+		if n.fc.stallPct > 0 && n.fc.decide(fp, "stall") < n.fc.stallPct {
 			// the answer arrives after the client has given up on this request; the stream stays
 			// healthy and later batches on it must still get their own answers
 			n.fc.noteFault(id)
 			n.fc.r.Count("server_write_answers_after_client_timeout", 1)
-			time.Sleep(n.fc.reqTimeout + time.Duration(n.fc.decide("stall-ms")*20+200)*time.Millisecond)
+			time.Sleep(n.fc.reqTimeout + time.Duration(n.fc.decide(fp, "stall-ms")*20+200)*time.Millisecond)
 			n.fc.noteFault(id)
 		}
 		if err := st.Send(res); err != nil {
@@ -316,10 +331,10 @@ func (n *fakeNode) Write(ctx context.Context, req *proto.WriteRequest) (*proto.W
 }
 
 // chunks splits n items into seeded chunk sizes.
-func (n *fakeNode) chunks(total int) []int {
+func (n *fakeNode) chunks(fp uint64, total int) []int {
 	var out []int
 	for total > 0 {
-		c := n.fc.decide("chunk")%n.fc.chunkMax + 1
+		c := n.fc.decide(fp, "chunk")%n.fc.chunkMax + 1
 		if c > total {
 			c = total
 		}
@@ -339,10 +354,12 @@ func (n *fakeNode) Read(req *proto.ReadRequest, st proto.OxiaClient_ReadServer) 
 	if len(req.Gets) > 1 {
 		n.fc.r.Count("server_read_batches_multi_op", 1)
 	}
-	if err := n.fault(id, "read-open"); err != nil {
+	fp := fingerprint(id, req)
+	n.fc.r.Logf("srv read shard=%d fp=%016x gets=%d", id, fp, len(req.Gets))
+	if err := n.fault(fp, id, "read-open"); err != nil {
 		return err
 	}
-	n.maybeSlow()
+	n.maybeSlow(fp)
 	n.fc.mu.Lock()
 	var all []*proto.GetResponse
 	for _, g := range req.Gets {
@@ -350,9 +367,9 @@ func (n *fakeNode) Read(req *proto.ReadRequest, st proto.OxiaClient_ReadServer) 
 	}
 	n.fc.mu.Unlock()
 	i := 0
-	for ci, c := range n.chunks(len(all)) {
+	for ci, c := range n.chunks(fp, len(all)) {
 		if ci > 0 && n.fc.midStream {
-			if err := n.fault(id, "read-mid-stream"); err != nil {
+			if err := n.fault(fp, id, "read-mid-stream"); err != nil {
 				n.fc.r.Count("server_read_failed_mid_stream", 1)
 				return err
 			}
@@ -371,7 +388,8 @@ func (n *fakeNode) List(req *proto.ListRequest, st proto.OxiaClient_ListServer) 
 	if s == nil {
 		return status.Error(codes.Code(106), "node is not leader")
 	}
-	if err := n.fault(id, "list-open"); err != nil {
+	fp := fingerprint(id, req)
+	if err := n.fault(fp, id, "list-open"); err != nil {
 		return err
 	}
 	n.fc.mu.Lock()
@@ -382,14 +400,14 @@ func (n *fakeNode) List(req *proto.ListRequest, st proto.OxiaClient_ListServer) 
 		}
 	}
 	n.fc.mu.Unlock()
-	n.maybeSlow()
+	n.maybeSlow(fp)
 	i := 0
-	for _, c := range n.chunks(len(ks)) {
+	for _, c := range n.chunks(fp, len(ks)) {
 		if err := st.Send(&proto.ListResponse{Keys: ks[i : i+c]}); err != nil {
 			return err
 		}
 		i += c
-		n.maybeSlow()
+		n.maybeSlow(fp)
 	}
 	return nil
 }
@@ -400,7 +418,8 @@ func (n *fakeNode) RangeScan(req *proto.RangeScanRequest, st proto.OxiaClient_Ra
 	if s == nil {
 		return status.Error(codes.Code(106), "node is not leader")
 	}
-	if err := n.fault(id, "scan-open"); err != nil {
+	fp := fingerprint(id, req)
+	if err := n.fault(fp, id, "scan-open"); err != nil {
 		return err
 	}
 	n.fc.mu.Lock()
@@ -414,8 +433,8 @@ func (n *fakeNode) RangeScan(req *proto.RangeScanRequest, st proto.OxiaClient_Ra
 	}
 	n.fc.mu.Unlock()
 	i := 0
-	for _, c := range n.chunks(len(rs)) {
-		n.maybeSlow()
+	for _, c := range n.chunks(fp, len(rs)) {
+		n.maybeSlow(fp)
 		if err := st.Send(&proto.RangeScanResponse{Records: rs[i : i+c]}); err != nil {
 			return err
 		}
@@ -452,6 +471,7 @@ func runC20(r *Run) {
 	g := NewRng(r.Seed, "c20")
 	w := NewWorld(r, defaultNetCfg(g))
 	defer w.Close()
+	w.NoGosched = true
 	nShards := g.Range(1, 5)
 	nNodes := g.Range(1, 3)
 	fc := &fakeCluster{r: r, g: g, chunkMax: []int{1, 2, 3, 7, 50}[g.Intn(5)], midStream: g.Chance(60)}
@@ -852,6 +872,7 @@ func runC20(r *Run) {
 							finish(nil, serr)
 						})
 					}
+					r.Logf("issued #%d %s %q shards=%v path=%x", op.id, op.kind, op.key, op.shards, runtime.SimPath())
 					if og.Chance(35) {
 						time.Sleep(time.Duration(og.Range(0, 30)) * time.Millisecond)
 					}
